@@ -11,7 +11,7 @@ use crate::json::{self, J};
 use crate::model::{read_responses, serialize_response, RespSpec, STATUS_CODES};
 use crate::obs::{method_of, status_of, version_of, CallRes, Conn};
 use crate::rng::{Rng, Sig};
-use crate::simstream::WrOp;
+use crate::simstream::{RdOp, WrOp};
 
 // ------------------------------------------------------------------ builder programs
 
@@ -235,7 +235,14 @@ enum WStep {
     Wr(WrOp),
     /// clear_write_buffer(): the owner discards everything pending (what a server does on hang-up)
     Clear,
+    /// try_read() between writes: input is a fixed cycle of complete requests without Expect and of
+    /// rejected lines, so a read never queues output itself. 0 = EOF, 1 = EAGAIN, 2 = EINTR,
+    /// 3 = ECONNRESET, n >= 4: deliver up to n - 3 bytes
+    Rd(usize),
 }
+
+/// what the read side of a C06 connection delivers (cycled)
+const C06_INPUT_UNIT: &[u8] = b"GET /a HTTP/1.1\r\n\r\nPUT /b HTTP/1.1\r\nContent-Length: 3\r\n\r\nabcBAD\r\n\r\nGET /c HTTP/1.0\r\nX: y\r\n\r\n";
 
 #[derive(Clone, Debug)]
 struct WrCase {
@@ -255,6 +262,7 @@ impl WrCase {
                             WStep::Enq(r) => json::obj(vec![("enqueue", r.to_json())]),
                             WStep::Wr(o) => json::obj(vec![("try_write", wrop_to_json(o))]),
                             WStep::Clear => json::obj(vec![("clear_write_buffer", J::Bool(true))]),
+                            WStep::Rd(k) => json::obj(vec![("try_read", json::u(*k))]),
                         })
                         .collect(),
                 ),
@@ -270,6 +278,8 @@ impl WrCase {
                 steps.push(WStep::Wr(wrop_from_json(o)?));
             } else if s.get("clear_write_buffer").is_some() {
                 steps.push(WStep::Clear);
+            } else if let Some(k) = s.get("try_read") {
+                steps.push(WStep::Rd(k.usize().ok_or("try_read")?));
             } else {
                 return Err("unknown step".into());
             }
@@ -311,9 +321,25 @@ impl Prop for C06 {
         // fault-free and fault-injecting configurations are separate
         let faulty = rng.chance(1, 2);
         let burst = rng.chance(1, 3);
+        // a third of the runs also read between writes (a duplex owner)
+        let duplex = rng.chance(1, 3);
         for i in 0..nsteps {
             let want_enq = if burst && i < 4 { true } else { rng.chance(1, 3) };
-            if want_enq && enq < 6 {
+            if duplex && rng.chance(1, 5) {
+                steps.push(WStep::Rd(match rng.below(8) {
+                    0 => 0,
+                    1 => 1,
+                    2 => 2,
+                    3 => {
+                        if faulty {
+                            3
+                        } else {
+                            1
+                        }
+                    }
+                    _ => 4 + rng.range(0, 120) as usize,
+                }));
+            } else if want_enq && enq < 6 {
                 enq += 1;
                 steps.push(WStep::Enq(gen_recipe(rng, 3, 8192)));
             } else if rng.chance(1, 25) {
@@ -337,7 +363,13 @@ impl Prop for C06 {
     }
     fn exec(&self, case: &J, st: &mut Stats) -> Result<RunOut, String> {
         let case = WrCase::from_json(case)?;
-        let mut conn = Conn::new(vec![], None);
+        let mut input = Vec::new();
+        if case.steps.iter().any(|s| matches!(s, WStep::Rd(_))) {
+            while input.len() < 8192 {
+                input.extend_from_slice(C06_INPUT_UNIT);
+            }
+        }
+        let mut conn = Conn::new(input, None);
         let mut expected: Vec<u8> = Vec::new(); // concatenation since the last discard
         let mut base = 0usize; // offset into the stream's accepted bytes where `expected` starts
         let mut queued_resps: Vec<usize> = Vec::new(); // end offsets (in `expected`) of queued responses
@@ -388,6 +420,41 @@ impl Prop for C06 {
                     expected.clear();
                     queued_resps.clear();
                     sig.u(3);
+                }
+                WStep::Rd(k) => {
+                    let sent = conn.sh.borrow().accepted.len() - base;
+                    if sent < expected.len() {
+                        st.probe("read_while_output_pending");
+                        if *k == 0 {
+                            st.probe("eof_read_while_output_pending");
+                        }
+                    }
+                    let op = match *k {
+                        0 => RdOp::Eof(0),
+                        1 => RdOp::Eagain,
+                        2 => RdOp::Eintr,
+                        3 => RdOp::Reset,
+                        n => RdOp::Data(n - 3, 0),
+                    };
+                    match op {
+                        RdOp::Eintr => st.fault("F-rintr"),
+                        RdOp::Reset => st.fault("F-rerr:ECONNRESET"),
+                        RdOp::Eof(_) => st.fault("F-eof"),
+                        _ => {}
+                    }
+                    let res = conn.try_read(op);
+                    st.lib_calls += 1;
+                    sig.u(4);
+                    sig.u(res.code());
+                    if let CallRes::Panic(m) = &res {
+                        return viol("panic", i, format!("try_read panicked: {}", m), &sig);
+                    }
+                    if conn.last_writes > 0 {
+                        return viol("write-in-read", i, "try_read performed a write".into(), &sig);
+                    }
+                    // the requests are not this property's concern; what the read did to the
+                    // output side is judged by the invariants below
+                    let _ = conn.pop_all();
                 }
                 WStep::Wr(op) => {
                     let sent_before = conn.sh.borrow().accepted.len() - base;
